@@ -84,6 +84,10 @@ class MyStr(str):
     pass
 
 
+class MyTuple(tuple):
+    pass
+
+
 Point = collections.namedtuple("Point", ["x", "y"])
 
 USER_CLASSES = {"Plain": Plain, "WithState": WithState, "Slotted": Slotted, "ReduceCtor": ReduceCtor, "RaisingState": RaisingState}
@@ -114,6 +118,11 @@ def build(spec, made=None):
         return None
     if tag in ("int", "bool", "str"):
         return spec[1]
+    if tag == "strcp":
+        # a str given by its code points (lone surrogates do not survive the JSON channel of the harness)
+        return "".join(chr(c) for c in spec[1])
+    if tag == "mytuple":
+        return MyTuple(B(x) for x in spec[1])
     if tag == "bigint":
         return int(spec[1])
     if tag == "float":
